@@ -41,6 +41,9 @@ pub struct EncParams {
     /// version >= 2 only: leave the total summary out (totalSummaryOffset = 0)
     #[serde(default)]
     pub no_summary: bool,
+    /// leaves at different depths: the last leaf node hangs one level higher than the others
+    #[serde(default)]
+    pub ragged: bool,
 }
 
 #[derive(Serialize, Deserialize, Clone, Debug, PartialEq)]
@@ -198,6 +201,8 @@ fn write_rtree(w: &mut W, items: &[LeafItem], p: &EncParams, end_of_data: u64) -
     while level_nodes.len() > 1 {
         level += 1;
         let mut next = vec![];
+        // ragged: keep the last (rightmost) leaf node out of the first grouping and hand it to the level above
+        let promoted = if p.ragged && level == 1 && level_nodes.len() >= 3 { level_nodes.pop() } else { None };
         for chunk in level_nodes.chunks(b) {
             let first = &nodes[chunk[0]];
             let (sc, sb) = (first.sc, first.sb);
@@ -215,6 +220,9 @@ fn write_rtree(w: &mut W, items: &[LeafItem], p: &EncParams, end_of_data: u64) -
                 level,
             });
             next.push(nodes.len() - 1);
+        }
+        if let Some(leaf) = promoted {
+            next.push(leaf);
         }
         level_nodes = next;
     }
